@@ -1077,3 +1077,68 @@ func ruleNoArithmeticOnStatementInts(c *Ctx, rule string) {
 		c.OK(rule, "engine|statement-ints-compared-only", token.NoPos, n, "%d reads of statement integers in the engine, none an operand of +, -, * or <<", n)
 	}
 }
+
+// ---- only Parse judges the end of input -----------------------------------------------------------------
+
+func ruleEOFJudgedByParse(c *Ctx, rule string) {
+	c.Rule(rule, "only Parse judges the end of input: Parse consumes the optional ';' AFTER the statement production has returned, so inside a production the terminator is still the current token — a production that tests the current token against EOF (without also admitting SEMICOLON in the same condition) rejects `SELECT 1;` while accepting `SELECT 1`")
+	w := c.W
+	sqlp := w.Pkgs["sql"]
+	n := 0
+	isTok := func(f *Func, e ast.Expr, name string) bool {
+		k := f.namedConst(e)
+		return k != nil && k.Pkg() == sqlp.Types && k.Name() == name
+	}
+	for _, name := range w.SortedFuncNames() {
+		f := w.Funcs[name]
+		if f.Pkg != sqlp || !strings.Contains(f.Name, "(*Parser)") {
+			continue
+		}
+		idx := 0
+		var conds []ast.Expr
+		inspectBody(f.Decl.Body, func(x ast.Node) bool {
+			switch y := x.(type) {
+			case *ast.IfStmt:
+				conds = append(conds, y.Cond)
+			case *ast.ForStmt:
+				if y.Cond != nil {
+					conds = append(conds, y.Cond)
+				}
+			case *ast.CaseClause:
+				conds = append(conds, y.List...)
+			}
+			return true
+		})
+		for _, cond := range conds {
+			eof, semi := false, false
+			ast.Inspect(cond, func(y ast.Node) bool {
+				if e, ok := y.(ast.Expr); ok {
+					if isTok(f, e, "EOF") {
+						eof = true
+					}
+					if isTok(f, e, "SEMICOLON") {
+						semi = true
+					}
+				}
+				return true
+			})
+			if !eof {
+				continue
+			}
+			n++
+			idx++
+			key := f.Name + "|eof-test#" + itoa(idx)
+			switch {
+			case f.Name == "sql.(*Parser).Parse":
+				c.OK(rule, key, cond.Pos(), 1, "Parse's own end-of-input test (after the optional terminator)")
+			case semi:
+				c.OK(rule, key, cond.Pos(), 1, "the test admits the terminator as well")
+			default:
+				c.Fail(rule, key, cond.Pos(), "%s tests the current token against EOF (%s): at that point the statement terminator ';' has not been consumed yet (Parse does that afterwards), so a statement that ends in ';' is rejected or parsed differently from the same statement without it", f.Name, f.Src(cond))
+			}
+		}
+	}
+	if n == 0 {
+		c.Undecided(rule, "subjects", "no end-of-input test found in the parser")
+	}
+}
